@@ -37,6 +37,9 @@ SPECIAL = [
      ['zzlem']),
     ('ltinput', 'A \\LTinput{/verif/vf/data/defs_with_text.tex} \\fromfile \\zzfoo{B} \\zzq',
      ['\\zzq']),
+    ('handler_args', '\\newtheorem{t}{\\zzthm Title}\\hspace{\\zzlen} \\phantom{\\zzph} A \\hphantom{\\zzhp}B',
+     ['\\zzthm', '\\zzlen', '\\zzph', '\\zzhp']),
+    ('handler_args_then_text', '\\phantom{\\zza} \\zzb \\zza \\section{\\zzc} \\zzc', ['\\zza', '\\zzb', '\\zzc']),
     ('env_in_math', '\\[ \\begin{zzmat} a \\end{zzmat} \\] \\begin{zzmat}b\\end{zzmat}', ['zzmat']),
 ]
 OPTSETS = [{'pack': '*'}, {'pack': ''}, {'pack': '*', 'repl': ['zzd & zzq', 'zza zzb & x', 'zzenv & E'],
